@@ -235,6 +235,7 @@ int main(int argc, char** argv) {
         std::string op; is >> op;
         std::string res = "ok";
         std::vector<int> touched;
+        double pline = 0; bool havePline = false;
         try {
             if (op == "reset") {
                 int ns; is >> ns;
@@ -274,6 +275,12 @@ int main(int argc, char** argv) {
             } else if (op == "snap") {
                 int k; is >> k; touched = {k};
                 w.sts.at(k)->getSystemStageVersions(w.snap);
+            } else if (op == "probeStale") {
+                // end of a copy scenario: the entry was never marked in this State object since it was copied
+                int k, a, b; is >> k >> a >> b; touched = {k};
+                bool r = w.sts.at(k)->isCacheValueRealized(SubsystemIndex(a), CacheEntryIndex(b));
+                res = std::string("idx:") + (r ? "1" : "0");
+                pline = r ? 1.0 : 0.0; havePline = true;
             } else if (op == "diff") {
                 int k; is >> k; touched = {k};
                 res = "idx:" + std::to_string((int)w.sts.at(k)->getLowestSystemStageDifference(w.snap));
@@ -285,6 +292,8 @@ int main(int argc, char** argv) {
             res = "EXC:" + excClass(e);
         }
         std::printf("O res %s\n", res.c_str());
+        if (havePline)   // property predicate: a cache entry reads valid only if it was marked valid since ...
+            vh::P("neverMarkedInCopy_notValid", "copy.stale_stamp.cache_valid", pline, 0.5);
         for (size_t k = 0; k < w.sts.size(); ++k) {
             std::string o = w.dead[k] ? std::string("dead") : obsState(*w.sts[k]);
             bool t = full;
